@@ -46,6 +46,18 @@ def expression_pool(model, tier):
                  ("Minus", ("NthRoot", ("Add", [x, ("Constant", 1)]), 2), ("NthPower", ("Add", [x, ("Constant", 1)]), 2)),
                  ("Logarithm", ("Exponential", ("Divide", x, y), 3.0), 3),
                  ("Power", ("Sine", x), ("Cosine", ("Reciprocal", y)))]
+    # near-miss numeric content: values one ulp / one part in 1e12 away from a special value
+    near_e = math.nextafter(E, 3.0)
+    if "Logarithm" in names:
+        pool += [("Logarithm", x, near_e), ("Logarithm", x, 2.718281828), ("Logarithm", x, 10 * (1 + 1e-12)),
+                 ("Logarithm", x, 0.3), ("Logarithm", x, 0.1 + 0.2)]
+    if "Exponential" in names:
+        pool += [("Exponential", x, near_e), ("Exponential", x, 1 + 1e-12), ("Exponential", x, 0.3),
+                 ("Exponential", x, 0.1 + 0.2)]
+    pool += [("Constant", 0.3), ("Constant", 0.1 + 0.2), ("Constant", 2.0000000000000004), ("Constant", -1),
+             ("Constant", -2), ("Constant", 1e-300)]
+    if "Add" in names:
+        pool += [("Add", [x, ("Constant", -1)]), ("Add", [x, ("Constant", -2)])]
     if tier != "quick":
         pool += [("NthPower", ("NthRoot", x, k), k + 1) for k in range(1, 6)]
         pool += [("Exponential", ("Logarithm", x, b), b) for b in (2, 0.25, 10.0)]
